@@ -127,14 +127,22 @@ func (env *Env) run(c *Case) *Result {
 		switch c.Opts.TargetOpt {
 		case "slash":
 			targetOpt = target + "/"
-		case "rel", "default", "raw":
+		case "rel", "default", "raw", "short":
 			cwd, err := os.Getwd()
 			if err != nil {
 				res.Infra = "getwd: " + err.Error()
 				return res
 			}
 			restoreCwd = cwd
-			if c.Opts.TargetOpt == "rel" {
+			if c.Opts.TargetOpt == "short" {
+				// a one-character relative name ("t", a symbolic link to the target beside it)
+				if err := os.Chdir(filepath.Join(base, "work")); err != nil {
+					res.Infra = "chdir: " + err.Error()
+					return res
+				}
+				os.Symlink("target", filepath.Join(base, "work", "t"))
+				targetOpt = "t"
+			} else if c.Opts.TargetOpt == "rel" {
 				if err := os.Chdir(filepath.Join(base, "work")); err != nil {
 					res.Infra = "chdir: " + err.Error()
 					return res
